@@ -68,6 +68,7 @@ def shards(tier, seed):
             items.append(("seq", di, first, L))
     items.append(("refused", tier))
     items.append(("custom-default-resolver", tier))
+    items.append(("falsy-events", tier))
     if tier == "thorough":
         items.append(("two-streams", tier))
     return items
@@ -101,6 +102,24 @@ def root_field_node(schema, located, variables):
     ex.vars = vals
     groups = ex.collect(schema.subscription, located.operations[0].sel, {}, set())
     return list(groups.values())[0][0]
+
+
+class FalsyBox:
+    """a payload object carrying the event's fields as attributes whose truth value is False"""
+
+    def __init__(self, d):
+        self.__dict__.update(d)
+
+    def __bool__(self):
+        return False
+
+
+class ZeroLen(FalsyBox):
+    def __bool__(self):  # truth value through __len__
+        return len(self) != 0
+
+    def __len__(self):
+        return 0
 
 
 class _NoneRoot:
@@ -183,6 +202,30 @@ def run_shard(item):
                     "replay": {"doc": di, "seq": list(seq), "choices": choices}})
         if first == "W":
             out["samples"].append({"document": text, "event_sequences": ["".join(s) or "(empty)" for s in seqs[:6]], "count": len(seqs)})
+    elif item[0] == "falsy-events":
+        # events that are falsy in Python but are perfectly good root values: an object whose __bool__ is False / __len__ is 0 (an empty
+        # container type carrying attributes); each must be answered from *that* object
+        for label, text, variables in DOCS:
+            text, located = doc.roundtrip(doc.parse(text))
+            op = located.operations[0].name
+            for seq in (("F",), ("W", "F"), ("F", "W", "Z"), ("Z", "Z"), ("F", "N", "W")):
+                plain = [payload("W" if k in ("F", "Z") else k, i, schema) for i, k in enumerate(seq)]
+                events = [FalsyBox(ev) if k == "F" else ZeroLen(ev) if k == "Z" else ev for k, ev in zip(seq, plain)]
+                scn = Scenario(root=None)
+                scn.source_events = events
+                try:
+                    resps = harness.subscribe_all(engine, text, scn, operation_name=op, variables=variables, limit=10)
+                    clause = judge_stream(schema, located, op, variables, scn, plain, resps)
+                except Exception as e:  # noqa
+                    resps, clause = [repr(e)], "subscribe-raised"
+                out["counts"]["sequences"] += 1
+                out["counts"]["schedules"] += 1
+                out["counts"]["responses_compared"] += len(seq)
+                if clause:
+                    out["violations"].append({"signature": "%s|falsy-event-object|%s" % (clause, label),
+                                              "summary": "%s: %s events=%r (F / Z = objects with __bool__ False / __len__ 0) -> %r" % (clause, text, seq, resps),
+                                              "replay": {"falsy_events": label}})
+        out["samples"].append({"falsy_event_objects": "payload objects whose truth value is False"})
     elif item[0] == "custom-default-resolver":
         # the subscription root field has a source but no @Resolver: each event is answered through the engine's
         # custom_default_resolver (here: it prefers the key "cdr_<field>" of the payload), like any other field without resolver
@@ -349,6 +392,8 @@ def finish(agg, tier):
 
 def replay(rec):
     r = rec["replay"]
+    if "falsy_events" in r:
+        return run_shard(("falsy-events", "quick"))["violations"]
     if "custom_default_resolver" in r:
         return run_shard(("custom-default-resolver", "quick"))["violations"]
     if "refused" in r:
